@@ -352,7 +352,15 @@ def _get_demographic_events(g, demes_demo_events, sampled_pops):
         event = ("branch", branch.parent, branch.child)
         demo_events[branch.time].append(event)
     for merge in demes_demo_events["mergers"]:
-        event = ("merge", merge.parents, merge.proportions, merge.child)
+        # a parent that also has split descendants at this time is not removed by
+        # the merger: the split event (processed afterwards) turns it into its children
+        continuing = [
+            split.parent
+            for split in demes_demo_events["splits"]
+            if split.time == merge.time
+        ]
+        to_remove = [p for p in merge.parents if p not in continuing]
+        event = ("merge", merge.parents, merge.proportions, merge.child, to_remove)
         demo_events[merge.time].append(event)
     for admix in demes_demo_events["admixtures"]:
         event = ("admix", admix.parents, admix.proportions, admix.child)
@@ -659,7 +667,7 @@ def _apply_event(phi, xx, pop_ids, event, interval, sample_sizes, demes_present)
             # XXX: This should crash
             phi = _admix_phi(phi, xx, proportions, pop_ids, sources, dest)
         if e == "merge":
-            for parent in parents:
+            for parent in event[4]:
                 remove_i = pop_ids.index(parent)
                 pop_ids.pop(remove_i)
                 phi = dadi.PhiManip.remove_pop(phi, xx, remove_i+1)
